@@ -1,65 +1,37 @@
 import LlirModel.Gep
+import LlirProofs.GepSpec
 /-! # C07 — getelementptr result types are computed correctly and consistently (property theorems only)
 
 Three pipelines: `gepInst` (instruction constructor), `gepExpr` (constant-expression constructor; also
 what the parser uses for constant gep expressions) and `gepAsm` (parser, instructions); each is its own
-`getIndex` classifier followed by `gep.ResultType`. -/
+`getIndex` classifier, the check of the index's TYPE, and then `gep.ResultType`. -/
 namespace Llir.Props.C07
 open Llir Llir.Types Llir.Typing Llir.Gep
 
-/-- index forms on which the three classifiers are designed to agree: non-constants, integers,
-    scalar zeroinitializer/undef/poison, LITERAL integer vectors whose length is the type's length,
-    ptrtoint expressions of scalar type -/
-def Tame (a : IdxArg) : Bool :=
-  match a.c with
-  | none => true
-  | some (.int _) => a.tyVecLen == 0
-  | some .zero => a.tyVecLen == 0
-  | some .undef => a.tyVecLen == 0
-  | some .poison => a.tyVecLen == 0
-  | some (.expr true) => a.tyVecLen == 0
-  | some (.vecInts vs) => a.tyVecLen == vs.length && vs.length != 0
-  | _ => false
+def NoInrange (a : IdxArg) : Prop := ∀ c, a.c ≠ some (.inrange c)
 
-theorem classify_inst_eq_asm (a : IdxArg) (h : Tame a = true) : classifyAsm a = classifyInst a := by
-  unfold Tame at h
-  unfold classifyAsm classifyInst
+theorem getIndexAsm_eq_IR (c : IdxConst) (h : ∀ c', c ≠ .inrange c') : getIndexAsm c = getIndexIR c := by
+  cases c with
+  | inrange c' => exact absurd rfl (h c')
+  | vecOther k => cases k <;> rfl
+  | _ => rfl
+
+/-- The parser classifies every index operand an instruction can have (no `inrange`) exactly as the
+    instruction constructor does. -/
+theorem classify_asm_eq_inst (a : IdxArg) (h : NoInrange a) : classifyAsm a = classifyInst a := by
   rcases a with ⟨c, n, s⟩
   cases c with
   | none => rfl
   | some c =>
-    cases c <;> simp_all [getIndexIR]
-    case expr b => cases b <;> simp_all [getIndexIR]
+    have : getIndexAsm c = getIndexIR c := getIndexAsm_eq_IR c (fun c' hc => h c' (by simp [hc]))
+    simp [classifyAsm, classifyInst, this]
 
-theorem getIndexIR_vecLen (vs : List Int) (hne : vs.length ≠ 0) :
-    ∃ ix, getIndexIR (.vecInts vs) = some ix ∧ ix.vectorLen = vs.length := by
-  cases vs with
-  | nil => simp at hne
-  | cons v vs =>
-    simp only [getIndexIR]
-    split <;> exact ⟨_, rfl, by simp⟩
-
-theorem classify_inst_eq_expr (a : IdxArg) (h : Tame a = true) (hc : a.c.isSome = true) :
-    classifyExpr a = classifyInst a := by
-  unfold Tame at h
-  unfold classifyExpr classifyInst
+/-- The constant-expression constructor classifies every constant exactly as the instruction constructor does. -/
+theorem classify_expr_eq_inst (a : IdxArg) (hc : a.c.isSome = true) : classifyExpr a = classifyInst a := by
   rcases a with ⟨c, n, s⟩
   cases c with
   | none => simp at hc
-  | some c =>
-    cases c with
-    | vecInts vs =>
-      simp only [beq_iff_eq, bne_iff_ne, ne_eq, Bool.and_eq_true, decide_eq_true_eq, Bool.not_eq_true'] at h
-      have hlen : vs.length ≠ 0 := by
-        intro h0; simp [h0] at h
-      obtain ⟨ix, hix, hl⟩ := getIndexIR_vecLen vs hlen
-      have hn : n = vs.length := by simpa using h.1
-      simp only [hix, Option.map_some]
-      rcases ix with ⟨hv, v, l⟩
-      simp only at hl; subst hl; subst hn
-      simp [hlen]
-    | expr b => cases b <;> simp_all [getIndexIR]
-    | _ => simp_all [getIndexIR]
+  | some c => rfl
 
 theorem mapM?_congr {f g : α → Option β} : ∀ (l : List α), (∀ a ∈ l, f a = g a) → mapM? f l = mapM? g l
   | [], _ => rfl
@@ -67,45 +39,139 @@ theorem mapM?_congr {f g : α → Option β} : ∀ (l : List α), (∀ a ∈ l, 
     simp only [mapM?]
     rw [h x (by simp), mapM?_congr xs (fun a ha => h a (by simp [ha]))]
 
-/-- On tame index lists the parser and the instruction constructor compute the same type. -/
-theorem parser_eq_inst (env : Env) (elem src : Ty) (args : List IdxArg) (h : ∀ a ∈ args, Tame a = true) :
+/-- **Consistency.** Every index list an instruction can carry: the parser and the instruction
+    constructor compute the same type (or both panic). No restriction on the kinds of constants. -/
+theorem parser_eq_inst (env : Env) (elem src : Ty) (args : List IdxArg) (h : ∀ a ∈ args, NoInrange a) :
     gepAsm env elem src args = gepInst env elem src args := by
   unfold gepAsm gepInst gepWith
-  rw [mapM?_congr args (fun a ha => classify_inst_eq_asm a (h a ha))]
+  rw [mapM?_congr args (fun a ha => classify_asm_eq_inst a (h a ha))]
 
-/-- On tame, all-constant index lists the constant-expression constructor agrees as well. -/
-theorem expr_eq_inst (env : Env) (elem src : Ty) (args : List IdxArg) (h : ∀ a ∈ args, Tame a = true)
-    (hc : ∀ a ∈ args, a.c.isSome = true) :
+/-- **Consistency.** Every all-constant index list: the constant-expression constructor agrees as well. -/
+theorem expr_eq_inst (env : Env) (elem src : Ty) (args : List IdxArg) (hc : ∀ a ∈ args, a.c.isSome = true) :
     gepExpr env elem src args = gepInst env elem src args := by
   unfold gepExpr gepInst gepWith
-  rw [mapM?_congr args (fun a ha => classify_inst_eq_expr a (h a ha) (hc a ha))]
+  rw [mapM?_congr args (fun a ha => classify_expr_eq_inst a (hc a ha))]
+
+/-- **Correctness, every depth, every base, every index form.** For well-formed index operands
+    (`WFArg`: integer constants fit int64, literal vectors have the length of their type) whose vector
+    lengths are consistent (`Consistent`: LLVM requires it), the instruction constructor returns exactly
+    LLVM's result type — a pointer to the element reached, in the base pointer's address space, widened
+    to a (fixed or scalable) vector of pointers when the base or any index is a vector — and panics
+    exactly where LLVM's rule is undefined. -/
+theorem inst_eq_llvm (env : Env) (elem src : Ty) (args : List IdxArg) (L : Nat)
+    (hw : ∀ a ∈ args, WFArg a) (hc : Consistent L src args) :
+    gepInst env elem src args =
+      match LLVMSpec.gepType env elem src args with
+      | some t => .ok t
+      | none => .panic := by
+  obtain ⟨idxs, hm⟩ := mapM_wf args hw
+  obtain ⟨hl, hv⟩ := hc
+  unfold gepInst gepWith
+  rw [hm]
+  have main : ∀ (as : Nat) (sh : Nat × Bool), (sh.1 = 0 ∨ sh.1 = L) →
+      LLVMSpec.vecShape src args = (if sh.1 != 0 then some (sh.2, sh.1) else
+        (args.find? (fun a => a.tyVecLen != 0)).map fun a => (a.tyScalable, a.tyVecLen)) →
+      resultType.go env as elem sh.1 sh.2 true idxs =
+        match (LLVMSpec.walk env elem args.tail).map (LLVMSpec.wrap (LLVMSpec.vecShape src args) as) with
+        | some t => .ok t
+        | none => .panic := by
+    intro as sh hs hshape
+    rw [pipeline_wf env as L elem sh args idxs hm hw hl hs, fold_shape, hshape]
+    cases LLVMSpec.walk env elem args.tail with
+    | none => simp [finish]
+    | some e =>
+      simp only [Option.map_some]
+      by_cases h0 : sh.1 = 0
+      · simp only [h0, bne_self_eq_false, Bool.false_eq_true, if_false]
+        cases hf : List.find? (fun a => a.tyVecLen != 0) args with
+        | none => simp [finish, h0, LLVMSpec.wrap]
+        | some x =>
+          have hx : x.tyVecLen ≠ 0 := by
+            have := List.find?_some hf; simpa using this
+          simp [finish, hx, LLVMSpec.wrap]
+      · simp [finish, h0, LLVMSpec.wrap]
+  cases src with
+  | ptr b as =>
+    have := main as (0, false) (Or.inl rfl) (by simp [LLVMSpec.vecShape])
+    simpa [resultType, LLVMSpec.gepType, LLVMSpec.baseAS] using this
+  | vec s n el =>
+    obtain ⟨hn, hn0⟩ := hv s n el rfl
+    cases el with
+    | ptr b as =>
+      have := main as (n, s) (Or.inr hn) (by simp [LLVMSpec.vecShape, hn0])
+      simpa [resultType, LLVMSpec.gepType, LLVMSpec.baseAS] using this
+    | _ => simp [resultType, LLVMSpec.gepType, LLVMSpec.baseAS]
+  | _ => simp [resultType, LLVMSpec.gepType, LLVMSpec.baseAS]
+
+/-- …and therefore so do the parser and the constant-expression constructor. -/
+theorem asm_eq_llvm (env : Env) (elem src : Ty) (args : List IdxArg) (L : Nat)
+    (hw : ∀ a ∈ args, WFArg a) (hc : Consistent L src args) (hn : ∀ a ∈ args, NoInrange a) :
+    gepAsm env elem src args =
+      match LLVMSpec.gepType env elem src args with
+      | some t => .ok t
+      | none => .panic := by
+  rw [parser_eq_inst env elem src args hn]; exact inst_eq_llvm env elem src args L hw hc
+
+theorem expr_eq_llvm (env : Env) (elem src : Ty) (args : List IdxArg) (L : Nat)
+    (hw : ∀ a ∈ args, WFArg a) (hc : Consistent L src args) (hk : ∀ a ∈ args, a.c.isSome = true) :
+    gepExpr env elem src args =
+      match LLVMSpec.gepType env elem src args with
+      | some t => .ok t
+      | none => .panic := by
+  rw [expr_eq_inst env elem src args hk]; exact inst_eq_llvm env elem src args L hw hc
 
 /-- The address space of the result is the base pointer's; no index: pointer to the element type. -/
 theorem no_index_case (env : Env) (e b : Ty) (as : Nat) :
     gepInst env e (.ptr b as) [] = .ok (.ptr e as) ∧ LLVMSpec.gepType env e (.ptr b as) [] = some (.ptr e as) := by
   constructor
   · simp [gepInst, gepWith, mapM?, resultType, resultType.go]
-  · simp [LLVMSpec.gepType, LLVMSpec.vecShape]
+  · simp [LLVMSpec.gepType, LLVMSpec.vecShape, LLVMSpec.baseAS, LLVMSpec.walk, LLVMSpec.wrap]
 
-/-- FULL statement is false for the code as it is — three witnesses (recorded as known findings):
-    (a) scalability is lost, (b) a vector-typed zeroinitializer index does not widen the result in the
-    instruction pipeline, (c) the parser panics on a constant-expression index. -/
-theorem scalable_lost :
+/-- non-vacuity: a struct-in-array walk with a constant field index -/
+example : gepInst (fun _ => none) (.arr 4 (.struct false (.cons (.int 8) (.cons (.int 32) .nil)))) (.ptr (.int 8) 3)
+    [⟨some (.int 0), 0, false⟩, ⟨none, 0, false⟩, ⟨some (.int 1), 0, false⟩] = .ok (.ptr (.int 32) 3) := by
+  have h1 : IntLit.int64Of 1 = 1 := by decide
+  have h0 : IntLit.int64Of 0 = 0 := by decide
+  simp [gepInst, gepWith, mapM?, classifyInst, getIndexIR, withType, resultType, resultType.go, TyList.get?, h1, h0]
+
+/-- non-vacuity of the hypotheses of `inst_eq_llvm`: a splat vector index, a scalable non-constant vector -/
+example : (∀ a ∈ [(⟨some (.vecInts [1, 1]), 2, false⟩ : IdxArg), ⟨none, 0, false⟩], WFArg a) ∧
+    Consistent 2 (.ptr (.int 8) 0) [⟨some (.vecInts [1, 1]), 2, false⟩, ⟨none, 0, false⟩] := by
+  have h1 : IntLit.int64Of 1 = 1 := by decide
+  refine ⟨?_, ?_, ?_⟩
+  · intro a ha
+    simp only [List.mem_cons, List.not_mem_nil, or_false] at ha
+    rcases ha with rfl | rfl
+    · simp [WFArg, WFConst, h1]
+    · simp [WFArg]
+  · intro a ha
+    simp only [List.mem_cons, List.not_mem_nil, or_false] at ha
+    rcases ha with rfl | rfl <;> simp [LenOK]
+  · intro s n t h; cases h
+
+example : gepInst (fun _ => none) (.int 8) (.ptr (.int 8) 1) [⟨none, 4, true⟩] = .ok (.vec true 4 (.ptr (.int 8) 1)) := by
+  simp [gepInst, gepWith, mapM?, classifyInst, withType, resultType, resultType.go]
+
+/-! ## the three inputs on which the code used to fail (repaired by fix commits; kept as regression facts) -/
+
+/-- (a) scalability is kept -/
+theorem scalable_kept :
     gepInst (fun _ => none) (.int 8) (.vec true 2 (.ptr (.int 8) 0)) [⟨some (.int 0), 0, false⟩]
-      = .ok (.vec false 2 (.ptr (.int 8) 0)) ∧
-    LLVMSpec.gepType (fun _ => none) (.int 8) (.vec true 2 (.ptr (.int 8) 0)) [⟨some (.int 0), 0, false⟩]
-      = some (.vec true 2 (.ptr (.int 8) 0)) := by
-  constructor
-  · simp [gepInst, gepWith, mapM?, classifyInst, getIndexIR, resultType, resultType.go]
-  · simp [LLVMSpec.gepType, LLVMSpec.vecShape, LLVMSpec.walk]
+      = .ok (.vec true 2 (.ptr (.int 8) 0)) := by
+  have h0 : IntLit.int64Of 0 = 0 := by decide
+  simp [gepInst, gepWith, mapM?, classifyInst, getIndexIR, withType, resultType, resultType.go, h0]
 
-theorem vector_zeroinitializer_not_widened :
-    gepInst (fun _ => none) (.int 8) (.ptr (.int 8) 0) [⟨some .zero, 2, false⟩] = .ok (.ptr (.int 8) 0) ∧
+/-- (b) a vector-typed zeroinitializer index widens the result in every pipeline -/
+theorem vector_zeroinitializer_widens :
+    gepInst (fun _ => none) (.int 8) (.ptr (.int 8) 0) [⟨some .zero, 2, false⟩] = .ok (.vec false 2 (.ptr (.int 8) 0)) ∧
+    gepAsm (fun _ => none) (.int 8) (.ptr (.int 8) 0) [⟨some .zero, 2, false⟩] = .ok (.vec false 2 (.ptr (.int 8) 0)) ∧
     gepExpr (fun _ => none) (.int 8) (.ptr (.int 8) 0) [⟨some .zero, 2, false⟩] = .ok (.vec false 2 (.ptr (.int 8) 0)) := by
-  constructor <;> simp [gepInst, gepExpr, gepWith, mapM?, classifyInst, classifyExpr, getIndexIR, resultType, resultType.go]
+  refine ⟨?_, ?_, ?_⟩ <;>
+    simp [gepInst, gepAsm, gepExpr, gepWith, mapM?, classifyInst, classifyAsm, classifyExpr, getIndexIR, getIndexAsm, withType, resultType, resultType.go]
 
-theorem parser_panics_on_constant_expression :
-    gepAsm (fun _ => none) (.int 8) (.ptr (.int 8) 0) [⟨some (.expr false), 0, false⟩] = .panic := by
-  simp [gepAsm, gepWith, mapM?, classifyAsm]
+/-- (c) the parser accepts a constant-expression index -/
+theorem parser_accepts_constant_expression :
+    gepAsm (fun _ => none) (.int 8) (.ptr (.int 8) 0) [⟨some (.expr false), 0, false⟩] = .ok (.ptr (.int 8) 0) := by
+  simp [gepAsm, gepWith, mapM?, classifyAsm, getIndexAsm, withType, resultType, resultType.go]
 
 end Llir.Props.C07
